@@ -151,6 +151,11 @@ def origin_slots(ctx, ht, rule):
         n += 1
         ax = 'ilines' if role[1] == 'IL' else 'xlines'
         want = '%s[geom.%s[0]]' % (ax, ax)
+        # an index held in a single-assignment local
+        if isinstance(reg, ast.Subscript) and isinstance(reg.slice, ast.Name):
+            dd = res(reg.slice.id)
+            if dd is not None:
+                reg = ast.Subscript(value=reg.value, slice=dd, ctx=ast.Load())
         if U(reg).replace(' ', '') == want:
             ctx.ok(rule, s.func, s.stmt, 'origin of %s = source axis at the window origin (%s)' % (role[1], want))
         elif isinstance(reg, ast.Subscript) and U(reg.value) == ax and isinstance(reg.slice, ast.Constant):
